@@ -43,14 +43,32 @@ class _GuardOrder(Walker):
     def init_state(self):
         return 0
 
+    def _expanded(self, test):
+        """the test with a flag that is bound once (active = value is not False and not self.is_null(value)) written out"""
+        import copy
+        defs = {}
+        for n in ast.walk(self.fnode):
+            if isinstance(n, ast.Assign) and len(n.targets) == 1 and isinstance(n.targets[0], ast.Name):
+                defs.setdefault(n.targets[0].id, []).append(n.value)
+
+        class T(ast.NodeTransformer):
+            def visit_Name(self2, n):
+                v = defs.get(n.id)
+                if isinstance(n.ctx, ast.Load) and v and len(v) == 1 and isinstance(v[0], (ast.BoolOp, ast.Compare, ast.UnaryOp, ast.Call)) \
+                        and n.id not in self.params:
+                    return copy.deepcopy(v[0])
+                return n
+        return T().visit(copy.deepcopy(test))
+
     def stmt(self, s, ws):
         if isinstance(s, ast.If) and not s.orelse:
-            t = ast.unparse(s.test)
+            test = self._expanded(s.test)
+            t = ast.unparse(test)
             if returns_const(s.body, (False, 0, None)) and 'column_exists' in t and isinstance(s.test, ast.UnaryOp):
                 out, b, c = super().stmt(s, ws)
                 return [World(w.asg, w.atoms, w.weak, max(w.state, 1)) for w in out], b, c
             if returns_const(s.body, (True,)) and ('is_null(' in t or ' is None' in t) and \
-                    (names_in(s.test) & self.valnames):
+                    (names_in(test) & self.valnames):
                 out, b, c = super().stmt(s, ws)
                 return [World(w.asg, w.atoms, w.weak, 2 if w.state >= 1 else w.state) for w in out], b, c
         return super().stmt(s, ws)
